@@ -17,13 +17,11 @@
 
 import abc
 import ast
-import collections
-import contextlib
 import io
 import re
 import tokenize
 import typing
-from typing import Any, Optional, Sequence, Tuple
+from typing import Any, Optional
 
 from gin import selector_map
 from gin import utils
@@ -201,7 +199,8 @@ class ConfigParser(object):
     self._current_token = None
     self._delegate = parser_delegate
     self._within_block = False
-    self._statements_queue = collections.deque()
+    # The `(scope, selector)` of the binding block currently being parsed.
+    self._current_block = None
     self._end_of_statement_pending = False
     self._advance_one_token()
 
@@ -225,15 +224,19 @@ class ConfigParser(object):
       Either a `BindingStatement`, `ImportStatement`, `IncludeStatement`, or
       `None` if no more statements can be parsed (EOF reached).
     """
-    if self._statements_queue:
-      return self._statements_queue.popleft()
-
     if self._end_of_statement_pending:
       # Only now move past the token that ended the previous statement: if
       # reading or tokenizing what follows fails, the previous statement has
       # already been returned (and applied).
       self._end_of_statement_pending = False
       self._advance_one_token()
+
+    if self._within_block:
+      # Bindings inside a block are returned one at a time (like any other
+      # statement), so that each takes effect before the next one is parsed.
+      statement = self._parse_block_binding()
+      if statement:
+        return statement
 
     self._skip_whitespace_and_comments()
     if self._current_token.type == tokenize.ENDMARKER:
@@ -249,9 +252,10 @@ class ConfigParser(object):
       scope, selector, arg_name = parse_binding_key(binding_key_or_keyword)
       statement = BindingStatement(scope, selector, arg_name, value, stmt_loc)
     elif self._current_token.string == ':':
-      statement, bindings = self._parse_binding_block(
+      # The declaration extends through the newline and indentation; the
+      # block's bindings are parsed by subsequent calls.
+      return self._parse_block_declaration(
           binding_key_or_keyword, block_location=stmt_loc)
-      self._statements_queue.extend(bindings)
     elif binding_key_or_keyword in ('import', 'from'):
       statement = self._parse_import(binding_key_or_keyword, stmt_loc)
     elif binding_key_or_keyword == 'include':
@@ -305,14 +309,6 @@ class ConfigParser(object):
     while current_line == self._current_token.start[0]:
       self._current_token = next(self._token_generator)
 
-  @contextlib.contextmanager
-  def _block_scope(self):
-    self._within_block = True
-    try:
-      yield
-    finally:
-      self._within_block = False
-
   def _skip_whitespace_and_comments(self):
     skippable_tokens = [tokenize.COMMENT, tokenize.NL]
     if not self._within_block:
@@ -338,7 +334,7 @@ class ConfigParser(object):
       location = self._current_location()
     raise SyntaxError(msg, location)
 
-  def _expect(self, expected, err_msg):
+  def _expect(self, expected, err_msg, advance=True):
     """Check that the current token is `expected`, otherwise raise `err_msg`."""
     if isinstance(expected, str):
       actual = self._current_token.string
@@ -349,7 +345,8 @@ class ConfigParser(object):
       actual_value = self._current_token.string
       received = f'  Got {actual_type_name} = {actual_value}.'
       self._raise_syntax_error(err_msg + received)
-    self._advance_one_token()
+    if advance:
+      self._advance_one_token()
 
   def _skip(self, skippable_token_types):
     while self._current_token.type in skippable_token_types:
@@ -449,39 +446,48 @@ class ConfigParser(object):
         alias=alias,
         location=statement_location)
 
-  def _parse_binding_block(
-      self, scoped_selector, block_location: Location
-  ) -> Tuple[BlockDeclaration, Sequence[BindingStatement]]:
-    """Parses a single binding block (indented group of binding statements)."""
+  def _parse_block_declaration(
+      self, scoped_selector, block_location: Location) -> BlockDeclaration:
+    """Parses the header of a binding block (`scope/selector:` + indentation)."""
     self._expect(':', "Expected ':'.")
     self._skip([tokenize.COMMENT])
     self._expect(tokenize.NEWLINE, 'Expected newline.')
     self._skip([tokenize.COMMENT, tokenize.NL])
     self._expect(tokenize.INDENT, 'Expected indentation.')
-    self._skip([tokenize.COMMENT, tokenize.NL])
 
     scope, selector = parse_scoped_selector(scoped_selector)
-    block_declaration = BlockDeclaration(
+    self._within_block = True
+    self._current_block = (scope, selector)
+    return BlockDeclaration(
         scope=scope, selector=selector, location=block_location)
 
-    bindings = []
-    with self._block_scope():
-      while self._current_token.type != tokenize.DEDENT:
-        binding_location = self._current_location()
-        arg_name = self._parse_identifier()
-        self._expect('=', "Expected '='.")
-        value = self.parse_value()
-        binding = BindingStatement(
-            scope=scope,
-            selector=selector,
-            arg_name=arg_name,
-            value=value,
-            location=binding_location)
-        bindings.append(binding)
-        self._expect(tokenize.NEWLINE, 'Expected newline.')
-        self._skip_whitespace_and_comments()
+  def _parse_block_binding(self) -> Optional[BindingStatement]:
+    """Parses the next binding of the current block, or ends the block.
 
-    return block_declaration, bindings
+    Returns:
+      The next `BindingStatement` of the block, or `None` if the block has ended
+      (in which case the parser has left the block).
+    """
+    self._skip([tokenize.COMMENT, tokenize.NL])
+    if self._current_token.type == tokenize.DEDENT:
+      self._within_block = False
+      self._current_block = None
+      self._advance_one_token()
+      return None
+
+    scope, selector = self._current_block
+    binding_location = self._current_location()
+    arg_name = self._parse_identifier()
+    self._expect('=', "Expected '='.")
+    value = self.parse_value()
+    self._expect(tokenize.NEWLINE, 'Expected newline.', advance=False)
+    self._end_of_statement_pending = True
+    return BindingStatement(
+        scope=scope,
+        selector=selector,
+        arg_name=arg_name,
+        value=value,
+        location=binding_location)
 
   def _maybe_parse_container(self):
     """Try to parse a container type (dict, list, or tuple)."""
